@@ -119,6 +119,9 @@ func runC04(c *Ctx) {
 		r := c.Rng("journal", i)
 		opts := JGenOpts{MaxAccounts: r.Range(2, 6), MaxDays: r.Range(1, 5), Mutate: true, Unicode: true, Accruals: r.Chance(1, 3), BaseDay: 737000 + r.Intn(2000), SpanDays: r.Range(0, 10)}
 		j, tags := GenJournal(r, opts)
+		if r.Chance(1, 6) && WidenDates(r, j) {
+			tags = append(tags, "wide-dates")
+		}
 		text, offsets := j.Text()
 		path := filepath.Join(dir, fmt.Sprintf("j%d.knut", i%64))
 		if err := os.WriteFile(path, []byte(text), 0o644); err != nil {
